@@ -295,7 +295,35 @@ fn main() {
                 }
                 drop(Box::from_raw(e)); drop(Box::from_raw(h));
             } } }
-            println!("RESULT enum:capi-list list handles agree with Vec semantics on all small cases");
+            // scalar getters and kind tests against the Rust API on sample values
+            {
+                use libhaystack::c_api::coord::*; use libhaystack::c_api::date::*; use libhaystack::c_api::datetime::*;
+                use libhaystack::c_api::number::*; use libhaystack::c_api::time::*;
+                let fail = |what: &str| { println!("RESULT enum:capi-list getter {what} disagrees with the Rust API"); std::process::exit(3); };
+                let t = Value::make_time(libhaystack::val::Time::from_hms_milli(1, 2, 3, 4).unwrap());
+                if haystack_value_get_time_hour(&t) != 1 || haystack_value_get_time_minutes(&t) != 2 || haystack_value_get_time_seconds(&t) != 3
+                    || haystack_value_get_time_millis(&t) != 4 { fail("time h/m/s/ms of 01:02:03.004"); }
+                let d = Value::make_date(libhaystack::val::Date::from_ymd(2021, 6, 19).unwrap());
+                if haystack_value_get_date_year(&d) != 2021 || haystack_value_get_date_month(&d) != 6 || haystack_value_get_date_day(&d) != 19 { fail("date y/m/d of 2021-06-19"); }
+                let c = Value::make_coord_from(1.5, -2.5);
+                if haystack_value_get_coord_lat(&c) != 1.5 || haystack_value_get_coord_long(&c) != -2.5 { fail("coord lat/long of C(1.5,-2.5)"); }
+                if !haystack_value_get_coord_long(&t).is_nan() || !haystack_value_get_number_value(&t).is_nan() { fail("NaN sentinel on a handle of another kind"); }
+                if haystack_value_get_time_hour(&d) != u32::MAX || haystack_value_get_date_day(&t) != u32::MAX { fail("u32::MAX sentinel on a handle of another kind"); }
+                let kinds: [(&Value, usize); 4] = [(&t, 0), (&d, 1), (&c, 2), (&Value::make_xstr_from("T", "v"), 3)];
+                for (v, k) in kinds {
+                    let got = [haystack_value_is_time(v), haystack_value_is_date(v), haystack_value_is_coord(v), haystack_value_is_xstr(v)];
+                    for (i, g) in got.iter().enumerate() { if *g != (i == k) { fail("kind test (time/date/coord/xstr)"); } }
+                }
+                // 23:30 at -04:00 is the 19th locally and the 20th in UTC
+                let dt = Value::make_datetime(libhaystack::val::DateTime::parse_from_rfc3339_with_timezone("2021-06-19T23:30:00-04:00", "New_York").unwrap());
+                for (utc, day, hour) in [(true, 20, 3), (false, 19, 23)] {
+                    let r = Box::into_raw(haystack_value_init());
+                    if haystack_value_get_datetime_date(&dt, utc, r) != ResultType::TRUE || haystack_value_get_date_day(r) != day { fail("datetime date (utc flag)"); }
+                    if haystack_value_get_datetime_time(&dt, utc, r) != ResultType::TRUE || haystack_value_get_time_hour(r) != hour { fail("datetime time (utc flag)"); }
+                    drop(Box::from_raw(r));
+                }
+            }
+            println!("RESULT enum:capi-list list handles agree with Vec semantics on all small cases; scalar getters and kind tests agree with the Rust API on the samples");
         },
         // ---- C01 enumerator: scalar values through the real Zinc writer and reader; exit 3 on the first that does not come back
         "enum:zinc-roundtrip-scalars" => {
